@@ -522,6 +522,8 @@ pub fn right_shift_u192(operand: &[u64], shift_amount: usize, result: &mut [u64]
         result[0] = operand[2]; result[1] = 0; result[2] = 0;
     } else if (shift_amount & 64) > 0 {
         result[0] = operand[1]; result[1] = operand[2]; result[2] = 0;
+    } else {
+        result[0] = operand[0]; result[1] = operand[1]; result[2] = operand[2];
     }
     let bit_shift_amount = shift_amount & 63;
     if bit_shift_amount > 0 {
